@@ -50,6 +50,15 @@ def run(tier):
     t0 = time.time()
     V = core.Verdict(PID)
     rnd = random.Random(core.seed())
+    # design level: the counters as the code moves them (incl. the side-by-side compensation) show the true numbers
+    mc = tlc.run_tlc("MC_Numbers", cfg="MC_Numbers", workers=4, coverage=False, timeout=900)
+    tlc.require_ok(mc, "MC_Numbers")
+    if mc.violated:
+        V.drift.append(f"module=Numbers design-level {mc.violated} violated")
+    for cfg in ("MC_Numbers_regression", "MC_Numbers_regression2"):
+        reg = tlc.run_tlc("MC_Numbers", cfg=cfg, workers=2, coverage=False, timeout=600)
+        if not reg.violated:
+            raise core.ToolError(f"{cfg} (one arm of the side-by-side compensation removed) was not rejected")
     # subhunk shapes: every body of <= 5 lines over {minus, plus, zero} (thorough: <= 6)
     nmax = 5 if tier == "quick" else 6
     bodies = [list(b) for n in range(1, nmax + 1) for b in itertools.product(("minus", "plus", "zero"), repeat=n)]
@@ -102,16 +111,23 @@ def run(tier):
             if mode.startswith("unified"):
                 p = gitskin.parse_unified_numbers(b)
                 if p:
-                    out_rows.append(p)
+                    out_rows.append(dict(p, h=len(hdr)))
             else:
                 p = gitskin.parse_sbs_row(b)
                 if p:
-                    out_rows.append({"kl": p["kl"], "nm": p["nm"], "kr": p["kr"], "np": p["np"]})
+                    show = lambda k, panel: "first" if k else ("cont" if panel[0].strip() else "none")
+                    out_rows.append({"kl": p["kl"], "nm": p["nm"], "kr": p["kr"], "np": p["np"], "h": len(hdr),
+                                     "z": "zero" in p["lk"] or "zero" in p["rk"] or "lnZero" in {c[1] for c in gitskin.kinded_cells(b)[0]},
+                                     "sl": show(p["kl"], p["lp"]), "sr": show(p["kr"], p["rp"])})
         events.append({"run": i, "mode": "unified" if mode.startswith("unified") else "sbs", "hunks": hunks, "rows": out_rows,
                        "hdr": hdr, "code": 999 if r.timed_out else r.code})
     n = max(1, min(6, len(events) // 1500 + 1))
     outs = core.pmap(lambda ch: tlc.validate_trace("Trace_Numbers", ch, heap="3g"), [events[i::n] for i in range(n)], jobs=n)
     failed = [f for fl, r in outs for f in fl]
+    drifts = [x for fl, r in outs for t, v in r.printed if t == "DRIFT" for x in (v if isinstance(v, list) else [])]
+    for d in drifts[:5]:
+        bs, st, long_mask, omit, fam, mode, fmt = jobs[d]
+        V.drift.append(f"module=Numbers counters predict other numbers than shown: mode={mode} hunks={'|'.join(''.join(c[0] for c in b) for b in bs)} starts={st}")
     states = sum(r.distinct for fl, r in outs)
     log(f"[{PID}] {len(events)} rendered sections judged by TLC (Trace_Numbers), {len(failed)} rejected")
     for f in failed:
@@ -122,10 +138,12 @@ def run(tier):
                     {"bodies": bs, "starts": st, "mode": mode, "format": fmt, "run": r.to_json(), "failure": f})
     rc = V.finish()
     core.write_evidence(PID, tier, "model_checking", {
-        "states": states, "transitions": states,
+        "states": mc.distinct, "transitions": mc.generated, "monitor_states": states, "drift": len(drifts),
+        "regression_models_rejected": True,
         "traces_validated_against_impl": len(events), "evaluations": len(events),
         "distinct_nontrivial": len({json.dumps(j[:2]) + j[5] + j[6] for j in jobs}),
-        "rule": f"every hunk body of <= {nmax} lines over (removed, added, unchanged), placed in files of 1-3 hunks with start positions "
+        "rule": "design level: Numbers (counters of LineNumbersData, who increments them, the side-by-side compensation) shows the true "
+                "numbers on every sequence of blocks of <= 7 rows with wrapping over <= 3 rows; binary: " f"every hunk body of <= {nmax} lines over (removed, added, unchanged), placed in files of 1-3 hunks with start positions "
                 f"drawn from {STARTS}, omitted counts, paired/unpaired line contents and long (wrapping) lines, in unified (two widths) "
                 "and side-by-side (with and without wrapping) view and four number formats; TLC compares every displayed number with "
                 "the true one and requires continuation rows to be blank",
